@@ -203,6 +203,9 @@ func c17(w *core.World, r *core.Report) {
 						if bi, isB := c.Common().Value.(*ssa.Builtin); isB && bi.Name() == "append" {
 							fresh = true
 						}
+						if k := core.CalleeKey(c); k == "maps.Clone" || k == "slices.Clone" || k == "slices.Collect" || k == "slices.Sorted" || k == "slices.AppendSeq" {
+							fresh = true // the standard library's copy
+						}
 					}
 					if core.FieldOf(o) == "tree.childMap.c" {
 						if _, isMap := o.Type().Underlying().(*types.Map); isMap {
